@@ -13,6 +13,14 @@ proxy inside a transaction is reconstructed here from observables that do not be
 (pair reserves / LP supply, farm token supply, farm token attributes, the factory's energy view,
 locked-token attributes) or, where only the proxy records it, from the attributes of the wrapped
 token it created; the Coq checker evaluates the interface laws on these responses (field 900).
+Whether a guard of a nested contract fires ([v_ok]) is predicted here from the callee's documented
+guards (pair quote / slippage / minimum liquidity, factory lock options, "still locked", the caller's
+energy entry covering the debited amount) — a wrong prediction shows up as an Ok/Err mismatch.
+
+Configurations draw: pair token order, fee, pool size and ratio, per-block rewards, boosted-yields
+percentage of the farms (0 as in the repository's setup, or > 0 as in production: then
+mergeWrappedFarmTokens makes the farm pay the caller's boosted rewards to the proxy, which keeps
+them), start epoch, the users' lock options and amounts.
 """
 import random
 from vmx import *
